@@ -1,4 +1,5 @@
 import ScriggoV.Lemmas.BvInt
+import ScriggoV.Lemmas.Compile
 import ScriggoV.Model.Eval
 /-! # C01, stage one — the integer core of "interpreted programs behave like gc"
 
@@ -15,7 +16,7 @@ value of the kind), VM and specification agree — same fault, or a canonical re
 value is the specified one. Property theorems only; helper lemmas are in `Lemmas/BvInt.lean`. -/
 set_option linter.unusedSimpArgs false
 namespace ScriggoV.C01
-open ScriggoV ScriggoV.GoInt ScriggoV.VM ScriggoV.Gen.VMInt ScriggoV.Eval
+open ScriggoV ScriggoV.GoInt ScriggoV.VM ScriggoV.Gen.VMInt ScriggoV.Eval ScriggoV.Compile
 
 /-! ## binary arithmetic and bitwise operators: full strength -/
 
@@ -303,5 +304,124 @@ theorem eval_sound (ρ : Env) (e : Expr) : ∀ (τ : Ty), typeOf e = some τ →
 example : typeOf (.bin .div (.var .int8 0) (.var .int8 1)) = some (.int .int8) ∧
     eval [-128, -1] (.bin .div (.var .int8 0) (.var .int8 1)) = .ok (.int .int8 (-128)) ∧
     eval [1, 0] (.bin .div (.var .int8 0) (.var .int8 1)) = .error .divZero := by decide
+
+/-! ## stage two — executing a compiled expression
+
+`Model/Compile.lean` models the emitter on the expression language of `Model/Eval.lean`
+(`compile` = `em.emitExpr`, `emitInto` = `_emitExpr` with the destination register given: register
+allocation, immediate / constant-table / register operands, the `emit…` function per operator and
+kind from the regenerated tables, conversions as move / `OpConvertInt` / `OpConvertUint`,
+comparisons as `Move 1; If; Move 0`) and the VM on the emitted instructions (`run`, built from the
+regenerated opcode bodies). The theorems below connect the opcode theorems above: running the
+compiled code of a well-typed tree gives the value of the reference evaluator. -/
+
+/-- the opcode theorems of stage one, bundled for the induction of `Lemmas/Compile.lean` -/
+theorem opcodeFacts : OpcodeFacts where
+  bin := vmOp_refines_spec
+  sh := vmShift_refines_spec_partial
+  un := vmUn_refines_spec
+  conv := convert_refines_spec
+  cmp := vmCmp_refines_spec
+
+/-- **Full statement of compile correctness**: for every well-typed tree `e`, every environment
+`ρ` whose variables are held, canonically at their declared kinds, by registers `≤ nv` that the
+allocator considers live (`nv ≤ st.numRegs`), and every constant table extending the one the
+emitter leaves, running `compile e` either ends with the register (or immediate) operand
+`compile` returns holding the canonical representation of `eval ρ e` at the static type and every
+register live before the expression unchanged — or raises exactly the fault `eval` raises,
+including Go's run-time panic for a negative shift count. -/
+def CompileCorrect : Prop :=
+  ∀ (vr : Nat → Nat) (ρ : Env) (e : Expr) (τ : Ty) (st : St) (rf : RegFile) (nv : Nat) (tbl : List (BitVec 64)),
+    typeOf e = some τ → VarsIn vr ρ rf nv e → nv ≤ st.numRegs → (compile vr e st).st.consts <+: tbl →
+    match eval ρ e with
+    | .ok v => ∃ rf', run tbl (compile vr e st).code rf = .ok (rf', false) ∧
+        Holds τ v (srcVal rf' (compile vr e st).src) ∧ ∀ r, r ≤ st.numRegs → rf' r = rf r
+    | .error f => run tbl (compile vr e st).code rf = .error f
+
+/-- The full statement is **false of the code today**, by the same witness as
+`shiftRefinesSpec_false`: `var x, s int = 1, -1; x << s` compiles to `ShlInt i1 i2 i3`, which
+stores 0 where Go panics (finding `neg-shift-count`). -/
+theorem compileCorrect_false : ¬ CompileCorrect := by
+  intro h
+  have h1 := h (fun i => i + 1) [1, -1] (.sh .shl (.var .int 0) (.var .int 1)) (.int .int) ⟨2, []⟩
+    (fun r => if r = 1 then reg 1 else reg (-1)) 2 [] (by decide)
+    ⟨⟨by decide, 1, rfl, by decide, by decide⟩, ⟨by decide, -1, rfl, by decide, by decide⟩⟩
+    (Nat.le_refl _) (List.prefix_refl _)
+  have e1 : eval [1, -1] (.sh .shl (.var .int 0) (.var .int 1)) = .error .negShift := by decide
+  rw [e1] at h1
+  have e2 : ∃ s, run [] (compile (fun i => i + 1) (.sh .shl (.var .int 0) (.var .int 1)) ⟨2, []⟩).code
+      (fun r => if r = 1 then reg 1 else reg (-1)) = .ok s := ⟨_, rfl⟩
+  obtain ⟨s, e2⟩ := e2
+  rw [e2] at h1
+  cases h1
+
+/-- **Compile correctness for the typed integer expression fragment** (every tree of
+`Model/Eval`'s language: variables and typed literals at the eleven kinds, unary `- ^ +`, binary
+`+ - * / % & | ^ &^`, shifts, comparisons, conversions). Missing for the full statement: a shift
+executed with a negative count (`NonNegShifts`, the `0 ≤ count` hypothesis of
+`vmShift_refines_spec_partial` for every shift node of the tree). By induction on `e`
+(`Lemmas/Compile.lean`) from the opcode theorems above. `tbl` is the function's final Int constant
+table: any extension of what the emitter had appended when it finished `e`. -/
+theorem compile_correct_partial (vr : Nat → Nat) (ρ : Env) (e : Expr) (τ : Ty) (st : St) (rf : RegFile)
+    (nv : Nat) (tbl : List (BitVec 64))
+    (ht : typeOf e = some τ) (hv : VarsIn vr ρ rf nv e) (hs : NonNegShifts ρ e)
+    (hnv : nv ≤ st.numRegs) (hp : (compile vr e st).st.consts <+: tbl) :
+    match eval ρ e with
+    | .ok v => ∃ rf', run tbl (compile vr e st).code rf = .ok (rf', false) ∧
+        Holds τ v (srcVal rf' (compile vr e st).src) ∧ ∀ r, r ≤ st.numRegs → rf' r = rf r
+    | .error f => run tbl (compile vr e st).code rf = .error f := by
+  have h := ((operand_correct opcodeFacts vr ρ e) τ false st rf nv ht hv hs hnv).1.2.2.2 tbl hp
+  unfold Post at h
+  cases hev : eval ρ e <;> rw [hev] at h <;> exact h
+
+/-- the same with the destination register given (`emitExprR`, as for the operand of `^x`, of
+unary `+`, or a declaration `var r T = e`): the value ends up in `dst`, and `dst` is the only
+register `≤ st.numRegs` that changes. `dst` must be allocated and above the variables' registers. -/
+theorem emitInto_correct_partial (vr : Nat → Nat) (ρ : Env) (e : Expr) (τ : Ty) (dst : Nat) (st : St)
+    (rf : RegFile) (nv : Nat) (tbl : List (BitVec 64))
+    (ht : typeOf e = some τ) (hv : VarsIn vr ρ rf nv e) (hs : NonNegShifts ρ e)
+    (hlt : nv < dst) (hle : dst ≤ st.numRegs) (hp : (emitInto vr e dst st).st.consts <+: tbl) :
+    match eval ρ e with
+    | .ok v => ∃ rf', run tbl (emitInto vr e dst st).code rf = .ok (rf', false) ∧
+        Holds τ v (rf' dst) ∧ ∀ r, r ≤ st.numRegs → r ≠ dst → rf' r = rf r
+    | .error f => run tbl (emitInto vr e dst st).code rf = .error f := by
+  have h := (into_correct opcodeFacts vr ρ e τ dst st rf nv ht hv hs hlt hle).2.2 tbl hp
+  unfold Post at h
+  cases hev : eval ρ e <;> rw [hev] at h <;> exact h
+
+/-- what `compile` returns besides the code: a register (never an immediate: `emitExpr` does not
+allow it) that is a variable's or newly allocated and still allocated afterwards; allocation and
+the constant table only grow -/
+theorem compile_result (vr : Nat → Nat) (ρ : Env) (e : Expr) (τ : Ty) (st : St) (rf : RegFile) (nv : Nat)
+    (ht : typeOf e = some τ) (hv : VarsIn vr ρ rf nv e) (hs : NonNegShifts ρ e) (hnv : nv ≤ st.numRegs) :
+    st.numRegs ≤ (compile vr e st).st.numRegs ∧ st.consts <+: (compile vr e st).st.consts ∧
+    ∃ r, (compile vr e st).src = .reg r ∧ (r ≤ nv ∨ st.numRegs < r) ∧ r ≤ (compile vr e st).st.numRegs := by
+  obtain ⟨⟨h1, h2, h3, _⟩, h5⟩ := (operand_correct opcodeFacts vr ρ e) τ false st rf nv ht hv hs hnv
+  obtain ⟨r, hr⟩ := h5 rfl
+  exact ⟨h1, h2, r, hr, h3 r hr⟩
+
+-- the hypotheses are satisfiable by a non-trivial object, and the model computes there:
+-- `int8(100) - v0 < v1` with v0 = -100, v1 = -56 in i1, i2 (the subtraction wraps to -56)
+example :
+    let e : Expr := .cmp .lt (.bin .sub (.lit .int8 100) (.var .int8 0)) (.var .int8 1)
+    let rf : RegFile := fun r => if r = 1 then reg (-100) else reg (-56)
+    typeOf e = some .bool ∧ NonNegShifts [-100, -56] e ∧
+    VarsIn (· + 1) [-100, -56] rf 2 e ∧
+    (compile (· + 1) e ⟨2, []⟩).code =
+      [.load 0 5, .move (.reg 5) 6, .op .sub (.kind .int8) (.reg 1) 6, .move (.reg 6) 4,
+       .move (.imm 1) 3, .ifInt 4 .less (.reg 2), .move (.imm 0) 3] ∧
+    (compile (· + 1) e ⟨2, []⟩).src = .reg 3 ∧ (compile (· + 1) e ⟨2, []⟩).st.consts = [100#64] ∧
+    eval [-100, -56] e = .ok (.bool false) := by
+  refine ⟨by decide, ⟨⟨trivial, trivial⟩, trivial⟩, ⟨⟨trivial, ⟨by decide, -100, rfl, by decide, by decide⟩⟩,
+    ⟨by decide, -56, rfl, by decide, by decide⟩⟩, by decide, by decide, by decide, by decide⟩
+
+example : NonNegShifts [1, 200] (.sh .shr (.var .int32 0) (.var .uint8 1)) ∧
+    ¬ NonNegShifts [1, -1] (.sh .shl (.var .int 0) (.var .int 1)) := by
+  refine ⟨⟨trivial, trivial, ?_⟩, ?_⟩
+  · intro kc c h
+    have : eval [1, 200] (.var .uint8 1) = .ok (.int .uint8 200) := by decide
+    rw [this] at h; cases h; decide
+  · intro ⟨_, _, h⟩
+    exact absurd (h .int (-1) (by decide)) (by decide)
 
 end ScriggoV.C01
